@@ -162,6 +162,11 @@ func runC06(r *Run) {
 		}
 	}
 	consistencyHammer(r, "[C06]")
+	if r.unknownViolations() == 0 {
+		// what was issued for one pending login stays that login's own while other logins start (nothing of it is replaced
+		// by - and therefore computable from - the public values of another login)
+		overlappingLogins(r, "C06")
+	}
 	// ---- (2) search on the real wiring with the real entropy source
 	nLog := scale(r, 600, 6000)
 	logins, err := doLogins(nLog, 8)
